@@ -50,6 +50,7 @@ def dispatch (line : String) : String :=
     | "pricemiprelaxsat" => cmdPriceMIPRelaxSat a
     | "multi" => cmdMulti a
     | "ops" => cmdOps a
+    | "counter" => cmdCounter a
     | "effects" => cmdEffects a
     | "pabulib" => cmdPabulib a
     | "csvread" => cmdCsvRead a
